@@ -251,6 +251,24 @@ func (c *fctx) rangeStmt() []*S {
 				loop.E = &X{K: XRaw, S: fmt.Sprintf("[3]int{%s, %s, 30}", c.pure(1).str(Mode{}), c.pure(1).str(Mode{}))}
 			}
 			c.g.mark("range_array_operand_not_addressable")
+		} else if r.Chance(1, 5) {
+			// index-only / variable-free range over an operand that Go does NOT evaluate (len is
+			// a constant and the operand contains no call): a dereference of a nil pointer, a
+			// field of a nil struct pointer, an element of a nil pointer to an array of arrays
+			id := c.g.id()
+			var decl, opnd string
+			switch r.Intn(3) {
+			case 0:
+				decl, opnd = fmt.Sprintf("var pz%d *[3]int", id), fmt.Sprintf("*pz%d", id)
+			case 1:
+				decl, opnd = fmt.Sprintf("var hz%d *struct{ arr [2]int }", id), fmt.Sprintf("hz%d.arr", id)
+			default:
+				decl, opnd = fmt.Sprintf("var gz%d *[2][3]int", id), fmt.Sprintf("gz%d[1]", id)
+			}
+			pre, coll = []*S{{K: SRaw, ID: id, Src: decl}}, ""
+			loop.E = &X{K: XRaw, S: opnd}
+			form = 1 + 2*r.Intn(2)
+			c.g.mark("range_array_operand_not_evaluated_nil_pointer_inside")
 		}
 	case "string":
 		valInt = false
